@@ -17,6 +17,12 @@ CHECKS = {
  "C07": dict(engine=E1, category="model_checking", technique=T_E1, ref="DESIGN.md 3, 5/C07",
   text="All 2^k failing subsets (k<=3; 4 thorough) x {Lift, Try} x {Map, FMap} x capacities 0..2 x error consumer {reader thread, StdErr}; Emit over all failing subsets of indices 0..3, Unfold (fail-fast) over all failing subsets of seeds 1..4; every interleaving of value consumer, error consumer and stage: exact values, exact errors, exact call sequence of the user function, both channels closed, nothing blocked.",
   note=NOTE_E1 + "'random longer inputs' of the quantifier are not generated (sampling is outside the family); the stage loops are memoryless per element."),
+ "C09": dict(engine=E1, category="model_checking", technique=T_E1, ref="DESIGN.md 3, 5/C09",
+  text="fork.Map/FMap/Filter/Partition/ForEach/Void with par 1..3 (4), inputs up to par*k<=6 (quick) / 3x3, 2x4, 4x2 (thorough), input capacity {0,k}, all failure/predicate patterns, Pure/Try (and Lift for the closure clauses); the user function yields, so in-flight calls complete in every order; every interleaving (state-cached, sibling workers identified up to permutation): each element processed exactly once, output and error multisets equal the sequential stage's, nothing sent on a closed channel, and the C06 closure / cancel / no-leak clauses with consumers that leave, cancel, unread error channel. Data races on variables shared between goroutines are turned into explored interleavings by gosim (scheduling point before every statement touching a closure-captured or package-level variable that some goroutine body assigns).",
+  note=NOTE_E1 + "Symmetry reduction assumes worker goroutines started by one go statement run identical code (true of fork.go; a change that makes workers differ only by a captured index would be merged). Races on heap objects reached through pointers are not modelled (sequentially consistent scheduler); GOMAXPROCS is irrelevant to a model that enumerates all interleavings."),
+ "C10": dict(engine=E1, category="model_checking", technique=T_E1, ref="DESIGN.md 3, 5/C10",
+  text="fork.Fold for par 1..3, every input sequence of length <=3 (4) over a 3-letter alphabet incl. empty and shorter than par, monoids sum (injective weights: the sum is the bag of elements), product, max, min, and, or, input capacity {0,len}; every interleaving = every distribution of elements over workers and arrival order at the collector: exactly one value equal to the sequential left fold, then closed, nothing left running.",
+  note=NOTE_E1 + "Same symmetry assumption as C09."),
  "C12": dict(engine=E1, category="model_checking", technique=T_E1, ref="DESIGN.md 3, 5/C12",
   text="Join over every combination of 0..3 inputs with 0..2 distinct elements each, capacities 0..1, one producer per input, canceller absent or free, every interleaving: received sequence is an interleaving of the inputs (per-input order, no loss, duplicate or invention), the output closes exactly when all producers have closed (the consumer reads a shared counter at the moment it observes the close), closes with zero inputs, no goroutine left.",
   note=NOTE_E1 + "Quick tier: <=4 elements on <=2 inputs, <=3 on 3 inputs; thorough: all combinations up to 2+2+2 (preemption bound 4 at 6 elements)."),
